@@ -120,6 +120,11 @@ func (ir *IntrospectionResolver) resolveType(schema *ast.Schema, typ *ast.Type, 
 		case "name":
 			result[f.Alias] = namedType.Name
 		case "fields":
+			// only defined for the kinds the specification names, null otherwise
+			if namedType.Kind != ast.Object && namedType.Kind != ast.Interface {
+				result[f.Alias] = nil
+				continue
+			}
 			includeDeprecated := false
 			if deprecatedArg := f.Arguments.ForName("includeDeprecated"); deprecatedArg != nil {
 				v, err := deprecatedArg.Value.Value(ir.Variables)
@@ -144,6 +149,11 @@ func (ir *IntrospectionResolver) resolveType(schema *ast.Schema, typ *ast.Type, 
 		case "description":
 			result[f.Alias] = namedType.Description
 		case "interfaces":
+			// only defined for the kinds the specification names, null otherwise
+			if namedType.Kind != ast.Object && namedType.Kind != ast.Interface {
+				result[f.Alias] = nil
+				continue
+			}
 			interfaces := []map[string]interface{}{}
 			for _, i := range namedType.Interfaces {
 				interfaces = append(interfaces, ir.resolveType(schema, &ast.Type{NamedType: i}, f.SelectionSet))
@@ -160,6 +170,11 @@ func (ir *IntrospectionResolver) resolveType(schema *ast.Schema, typ *ast.Type, 
 				result[f.Alias] = nil
 			}
 		case "enumValues":
+			// only defined for the kinds the specification names, null otherwise
+			if namedType.Kind != ast.Enum {
+				result[f.Alias] = nil
+				continue
+			}
 			includeDeprecated := false
 			if deprecatedArg := f.Arguments.ForName("includeDeprecated"); deprecatedArg != nil {
 				v, err := deprecatedArg.Value.Value(ir.Variables)
@@ -179,6 +194,11 @@ func (ir *IntrospectionResolver) resolveType(schema *ast.Schema, typ *ast.Type, 
 			}
 			result[f.Alias] = enums
 		case "inputFields":
+			// only defined for the kinds the specification names, null otherwise
+			if namedType.Kind != ast.InputObject {
+				result[f.Alias] = nil
+				continue
+			}
 			inputFields := []map[string]interface{}{}
 			for _, fi := range namedType.Fields {
 				// call resolveField instead of resolveInputValue because it has
